@@ -267,6 +267,9 @@ fn find_cached_jsdoc_description(
     }
 }
 
+/// named types that may be under extraction at the same time (nesting of references / instantiations)
+const MAX_NESTED_TYPE_DEFINITIONS: usize = 100;
+
 pub struct FrontendCtx<'a, R: FileManager> {
     pub files: &'a mut R,
     pub settings: &'a BeffUserSettings,
@@ -2106,6 +2109,16 @@ impl<'a, R: FileManager> FrontendCtx<'a, R> {
                 self.recursive_generic_uuids.insert(rt_uuid.clone());
             }
             return Ok(Runtype::ref_(rt_uuid));
+        }
+        // every named type still being extracted is an entry without a definition: a chain of ever new
+        // instantiations (`type A<T> = { x: A<T[]> | null }`) never closes and would exhaust the stack
+        let in_progress = self
+            .partial_validators
+            .values()
+            .filter(|it| it.is_none())
+            .count();
+        if in_progress >= MAX_NESTED_TYPE_DEFINITIONS {
+            return self.error(anchor, DiagnosticInfoMessage::TypeInstantiationIsTooDeep);
         }
         self.partial_validators.insert(rt_uuid.clone(), None);
 
